@@ -65,14 +65,18 @@ pub fn worker(cases: &str, results: &str, start: usize) -> i32 {
     let results = results.to_string();
     let progress = Arc::new(AtomicUsize::new(0));
     let p2 = Arc::clone(&progress);
-    // watchdog: if the case counter does not move for CASE_TIMEOUT_S, report a hang
+    // seconds the case in progress may take (cases that run real 1 s query timers legitimately take many seconds,
+    // more on a loaded machine)
+    let allowance = Arc::new(AtomicUsize::new(CASE_TIMEOUT_S as usize));
+    let a2 = Arc::clone(&allowance);
+    // watchdog: if the case counter does not move for the case's allowance, report a hang
     std::thread::spawn(move || {
         let mut last = usize::MAX; let mut still = 0u64;
         loop {
             std::thread::sleep(Duration::from_millis(500));
             let cur = p2.load(Ordering::SeqCst);
             if cur == last { still += 1; } else { still = 0; last = cur; }
-            if still >= CASE_TIMEOUT_S * 2 { std::process::exit(3); }
+            if still >= (a2.load(Ordering::SeqCst) as u64) * 2 { std::process::exit(3); }
         }
     });
     crate::capture::install();
@@ -84,6 +88,7 @@ pub fn worker(cases: &str, results: &str, start: usize) -> i32 {
                 Ok(v) => v,
                 Err(e) => { writeln!(out, "{}", json!({"i": i, "ok": [], "bad": [{"prop": "TOOL", "ok": false, "kind": "bad-json", "detail": e.to_string()}]})).unwrap(); continue; }
             };
+            allowance.store(match case["t"].as_str().unwrap_or("") { "timer" => 300, "session" => 60, _ => CASE_TIMEOUT_S as usize }, Ordering::SeqCst);
             writeln!(out, "{}", json!({"begin": crate::props_of(&case), "i": i})).unwrap();
             out.flush().unwrap();
             let obs = crate::run_case(&case);
